@@ -445,11 +445,15 @@ def _mpu_append_chunks_op(
 ):
     # expect 1 MPUChunk per partition
     (mpu,) = mpus
+    # more chunks may follow: do not spend the last write credit of the
+    # final section before all of its chunks were seen
+    is_final, mpu.is_final = mpu.is_final, False
     for chunk in chunks:
         data, chunk_id = chunk
         mpu.append(data, chunk_id)
         if write is not None and spill_sz > 0:
             mpu.maybe_write(write, spill_sz)
+    mpu.is_final = is_final
 
     return [mpu]
 
